@@ -102,7 +102,7 @@ Proof.
 Qed.
 
 (* the bound is reached: two listeners, limit 5, both pass the test in the same turn *)
-Definition p_ex : params := mkParams 5 120 30 1 0 65536.
+Definition p_ex : params := mkParams 5 120 30 1 0 65536 16777216.
 Example limit_tight :
   map_len (run p_ex (init 2 1000 1000) [EConnect 0; EConnect 1; EPoll]) = p_limit p_ex + 1.
 Proof. vm_compute. reflexivity. Qed.
@@ -110,7 +110,7 @@ Proof. vm_compute. reflexivity. Qed.
 (* a degenerate configuration: with connection_limit <= listeners the fixed
    descriptors alone exceed connection_limit (and nothing is ever accepted) *)
 Example limit_degenerate :
-  map_len (run (mkParams 1 120 30 1 0 65536) (init 1 1000 1000) [EConnect 0; EPoll]) = 2.
+  map_len (run (mkParams 1 120 30 1 0 65536 16777216) (init 1 1000 1000) [EConnect 0; EPoll]) = 2.
 Proof. vm_compute. reflexivity. Qed.
 
 (* ------------------------------------------------------------------------- *)
@@ -187,7 +187,7 @@ Qed.
    third connection stays in the backlog; after a disconnect has been noticed
    (first turn) the next turn starts below the limit and accepts it *)
 Example admission_example :
-  let p := mkParams 4 120 30 1 0 65536 in
+  let p := mkParams 4 120 30 1 0 65536 16777216 in
   let s := run p (init 1 1000 1000) [EConnect 0; EConnect 0; EConnect 0; EPoll; EPoll] in
   map_len s = p_limit p /\
   map c_fd (st_chans (poll p s)) = [1000; 1001] /\
